@@ -190,6 +190,11 @@ Section Decl.
     existsb (fun cm => negb (declares_pre_above (fst cm) name acc)) (definers k name acc)
     || (is_dunder name && negb (is_ctor name) && negb (declares_pre_above k name acc)).
 
+  (** the same, when the classes [hidden] are not seen *)
+  Definition accept_all_but (hidden : list nat) (k : nat) (name : string) (acc : mkind) : bool :=
+    existsb (fun cm => negb (nat_in (fst cm) hidden) && negb (declares_pre_above (fst cm) name acc)) (definers k name acc)
+    || (is_dunder name && negb (is_ctor name) && negb (declares_pre_above k name acc)).
+
   Definition declared_groups (k : nat) (name : string) (acc : mkind) : list (list Z) :=
     filter (fun g => negb (is_nil g)) (map (fun cm => own_pre (snd cm)) (definers k name acc)).
   Definition declared_posts (k : nat) (name : string) (acc : mkind) : list Z :=
@@ -374,11 +379,19 @@ Definition check_member_view (decls : list cdecl) (mro : nat -> list nat) (k : n
         else if negb ctor && accept_all decls mro p name acc
              then (if is_nil (fv_pre v) then V_ok
                    else if gset_eqb (fv_pre v) groups
-                           (* kf_C04_accept_all: several bases, one without preconditions, *another one with* - a class whose
-                              only preconditions are its own, under ancestors that accept every call, must not exist *)
-                           && existsb (fun cm => negb (Nat.eqb (fst cm) p) && negb (is_nil (own_pre (snd cm))))
-                                      (definers decls mro p name acc)
-                        then V_known 0
+                        then
+                          (* kf_C04_accept_all: several bases, one without preconditions, *another one with* - a class
+                             whose only preconditions are its own, under ancestors that accept every call, must not exist *)
+                          if existsb (fun cm => negb (Nat.eqb (fst cm) p) && negb (is_nil (own_pre (snd cm))))
+                                     (definers decls mro p name acc)
+                          then V_known 0
+                          (* ... unless the ancestor that accepts every call lies beyond a class that drops the accessor
+                             (D23) or is a definer that is not reached (D36): the library does not see it *)
+                          else if negb (accept_all_but decls mro (after_gap decls mro name acc (mro p)) p name acc)
+                          then V_known 1
+                          else if negb (accept_all_but decls mro (hidden_definers decls mro p name acc) p name acc)
+                          then V_known 3
+                          else V_bad
                    else V_bad)
         else if gset_eqb (fv_pre v) groups then V_ok else V_bad in
       match verdict with
